@@ -140,8 +140,64 @@ def extra_cases(rep):
     if got != want: rep.dev('cli-two-sections', dict(kind='cli-two-sections', key=a), 'exit %r: output differs from the file edited in both sections' % (code,), 'same bytes')
     else: rep.ok()
 
+def a5_model_cases(rep, seed, n):
+    """validation of the A5 model used by contracts/overrides.py: every axiom of the four editing operations (and the well-formedness
+    facts) is evaluated on the real _RawConfigParser for random states, sections and keys"""
+    from atsim.potentials.config._config_parser import _RawConfigParser
+    rng = random.Random(seed)
+    SECS = ['Pair', 'Tabulation', 'EAM-Embed', 'Zz']; KEYS = ['A-B', 'A - B', 'nr', 'cutoff', 'O', ' O', 'x y', 'xy']
+    def nfk(cp, k): return cp.optionxform(k)
+    def obs(cp):
+        has_sec = {s_: cp.has_section(s_) for s_ in SECS}
+        opt = {}
+        for s_ in SECS:
+            for k_ in set(nfk(cp, k) for k in KEYS):
+                h = cp.has_option(s_, k_)
+                opt[(s_, k_)] = (h, cp._sections[s_][k_] if h else None)
+        n = {s_: (len(cp[s_]) if cp.has_section(s_) else 0) for s_ in SECS}
+        return has_sec, opt, n
+    def mk():
+        cp = _RawConfigParser()
+        for s_ in rng.sample(SECS, rng.randint(0, 3)):
+            cp.add_section(s_)
+            for k_ in rng.sample(KEYS, rng.randint(0, 3)):
+                if not cp.has_option(s_, k_): cp[s_][k_] = 'v%d' % rng.randint(0, 9)
+        if rng.random() < 0.5: cp['Variables']['scale'] = '2.0'        # default-section keys must not be counted as own options
+        return cp
+    for i in range(n):
+        cp = mk(); s_ = rng.choice(SECS); k_ = rng.choice(KEYS); v_ = 'new%d' % i
+        op = rng.choice(['set', 'rem_opt', 'add_sec', 'rem_sec'])
+        hs0, o0, n0 = obs(cp)
+        nk = nfk(cp, k_)
+        case = dict(kind='a5-model', op=op, section=s_, key=k_, state={x: dict(cp._sections[x]) for x in cp.sections()})
+        rep.case('a5-model/' + op, case)
+        # preconditions of the assumed contracts
+        if op in ('set', 'rem_opt') and not hs0[s_]: rep.ok(); continue
+        if op == 'add_sec' and hs0[s_]: rep.ok(); continue
+        if op == 'set': cp[s_][k_] = v_
+        elif op == 'rem_opt': cp.remove_option(s_, k_)
+        elif op == 'add_sec': cp.add_section(s_)
+        else: cp.remove_section(s_)
+        hs1, o1, n1 = obs(cp)
+        want_hs, want_o, want_n = dict(hs0), dict(o0), dict(n0)
+        if op == 'set':
+            want_o[(s_, nk)] = (True, v_); want_n[s_] = n0[s_] + (0 if o0[(s_, nk)][0] else 1)
+        elif op == 'rem_opt':
+            want_o[(s_, nk)] = (False, None); want_n[s_] = n0[s_] - (1 if o0[(s_, nk)][0] else 0)
+        elif op == 'add_sec': want_hs[s_] = True
+        else:
+            want_hs[s_] = False; want_n[s_] = 0
+            for (a_, b_) in o0:
+                if a_ == s_: want_o[(a_, b_)] = (False, None)
+        wf_ok = all((not h) or (hs1[a_] and n1[a_] >= 1) for (a_, b_), (h, _) in o1.items()) and all(x >= 0 for x in n1.values())
+        if (hs1, o1, n1) != (want_hs, want_o, want_n) or not wf_ok:
+            rep.dev('a5-model-%s' % op, case, 'observables after the operation: %r' % ((hs1, {k: v for k, v in o1.items() if v[0]}, n1),),
+                    'the A5 model of contracts/overrides.py: %r' % ((want_hs, {k: v for k, v in want_o.items() if v[0]}, want_n),))
+        else: rep.ok()
+
 if __name__ == '__main__':
     pl = payload(); rep = Report('C14')
+    if pl.get('mode') != 'replay': a5_model_cases(rep, pl.get('seed', 0), 10 * pl.get('n', 40))
     if pl.get('mode') == 'replay': rep.case('replay', pl['input']); check_case(rep, pl['input'], 'replay')
     else:
         rng = random.Random(pl.get('seed', 0))
